@@ -71,6 +71,7 @@ std::string checkInvariants(NifFile& nif, NiShape* shape, Level level, bool triS
 
 	clause = "coverage";
 	std::multiset<uint64_t> uni;
+	std::vector<std::map<uint32_t, double>> skinW; // per vertex: bone -> weight in the skin data (filled on demand)
 	for (auto& p : sp->partitions) {
 		bool ok = true;
 		auto tt = partTrueTris(*sp, p, ok);
@@ -165,6 +166,46 @@ std::string checkInvariants(NifFile& nif, NiShape* shape, Level level, bool triS
 				}
 				if (sum != 0.0 && std::fabs(sum - 1.0) > 1e-5)
 					return P + "weights sum to " + std::to_string(sum);
+			}
+		}
+		// The per-vertex (bone, weight) pairs of a partition are a copy of the skin's weights (NiSkinData):
+		// every weighted slot must name a bone that really weights that vertex there, and where the skin
+		// has at most four weights for the vertex the normalised values must agree.
+		clause = "weights-match-skin";
+		if (level == FULL && !c.isSSE && p.hasVertexWeights && p.hasBoneIndices && p.vertexWeights.size() == p.vertexMap.size() && p.boneIndices.size() == p.vertexMap.size()) {
+			if (skinW.empty()) {
+				skinW.resize(nv);
+				std::vector<std::string> bones;
+				uint32_t nb = static_cast<uint32_t>(nif.GetShapeBoneList(shape, bones));
+				for (uint32_t b = 0; b < nb; b++) {
+					std::unordered_map<uint16_t, float> w;
+					nif.GetShapeBoneWeights(shape, b, w);
+					for (auto& kv : w)
+						if (kv.first < nv && kv.second > 0.0f)
+							skinW[kv.first][b] += kv.second;
+				}
+			}
+			for (size_t i = 0; i < p.vertexMap.size(); i++) {
+				const uint16_t v = p.vertexMap[i];
+				if (v >= nv)
+					continue;
+				const float* w = &p.vertexWeights[i].w1;
+				const uint8_t* bi = &p.boneIndices[i].i1;
+				double skinSum = 0;
+				for (auto& kv : skinW[v])
+					skinSum += kv.second;
+				for (int k = 0; k < 4; k++) {
+					if (!(w[k] > 0.0f))
+						continue;
+					if (bi[k] >= p.bones.size())
+						continue; // reported by the bone-index clause
+					const uint32_t gb = p.bones[bi[k]];
+					auto it = skinW[v].find(gb);
+					if (it == skinW[v].end())
+						return P + "vertex " + std::to_string(v) + " is weighted to bone " + std::to_string(gb) + " (" + std::to_string(w[k]) + "), which does not weight it in the skin data";
+					if (skinW[v].size() <= 4 && skinSum > 0 && std::fabs(it->second / skinSum - w[k]) > 2e-3)
+						return P + "vertex " + std::to_string(v) + ", bone " + std::to_string(gb) + ": partition weight " + std::to_string(w[k]) + " vs normalised skin weight " + std::to_string(it->second / skinSum);
+				}
 			}
 		}
 	}
